@@ -407,7 +407,8 @@ class Adagrad(StochasticSolver):
         self, model: ttb.ktensor, gradient: List[np.ndarray], lower_bound: float
     ) -> Tuple[List[np.ndarray], float]:
         self._gnormsum += np.sum([np.sum(gk**2) for gk in gradient])
-        step = 1.0 / np.sqrt(self._gnormsum)
+        # All sampled gradients so far are exactly zero: stay (inf * 0 would be nan)
+        step = 1.0 / np.sqrt(self._gnormsum) if self._gnormsum > 0 else 0.0
         factor_matrices = [
             np.maximum(lower_bound, factor_k - step * gk)
             for factor_k, gk in zip(model.factor_matrices, gradient)
